@@ -95,6 +95,9 @@ enum BvhCase {
     /// n boxes whose centres coincide on the longest axis at a value that is not a binary fraction (the f32 mean of n
     /// equal values need not equal the value): (n, index into INEXACT_CENTRES)
     InexactCentre(usize, usize),
+    /// n small boxes along x whose centres grow geometrically (ratio 10 from 1e-36, or ratio 50 from 1e-30): splitting at
+    /// the mean centre peels one box per level, the tree is as deep as the set is large: (n, ratio kind)
+    Progression(usize, usize),
 }
 
 const INEXACT_CENTRES: [f32; 6] = [4.05, 0.1, 0.7, 1.0e-3, 123456.7, -2.3];
@@ -120,6 +123,9 @@ fn bvh_cases(tier: Tier) -> Vec<BvhCase> {
         for c in 0..INEXACT_CENTRES.len() {
             v.push(BvhCase::InexactCentre(n, c));
         }
+    }
+    for (n, kind) in [(20usize, 0usize), (40, 0), (74, 0), (20, 1), (40, 1)] {
+        v.push(BvhCase::Progression(n, kind));
     }
     let lat: Vec<usize> = match tier {
         Tier::Quick => vec![0, 1, 2, 7, 29, 30, 31, 62, 100, 200, 216],
@@ -171,8 +177,38 @@ fn elements_for(c: &BvhCase) -> Vec<AABB> {
                 AABB::new(point![x * 0.5, y * 0.5, z * 0.5], point![x * 0.5 + 0.3, y * 0.5 + 0.3, z * 0.5 + 0.3])
             })
             .collect(),
+        BvhCase::Progression(n, kind) => (0..*n).map(|i| progression_box(i, *kind)).collect(),
         BvhCase::Occluders(..) => vec![],
     }
+}
+
+fn progression_centre(i: usize, kind: usize) -> f32 {
+    // (computed in f64: the powers alone leave the f32 range)
+    if kind == 0 {
+        (1.0e-36f64 * 10f64.powi(i as i32)) as f32
+    } else {
+        (1.0e-30f64 * 50f64.powi(i as i32)) as f32
+    }
+}
+
+fn progression_box(i: usize, kind: usize) -> AABB {
+    let c = progression_centre(i, kind);
+    AABB::new(point![0.9 * c, -0.1 * c, -0.1 * c], point![1.1 * c, 0.1 * c, 0.1 * c])
+}
+
+/// one ray through every box of a progression (from below its centre, upwards), one between the two largest and one
+/// pointing away from all of them
+fn progression_rays(n: usize, kind: usize) -> Vec<Ray> {
+    let mut v: Vec<Ray> = (0..n)
+        .map(|i| {
+            let c = progression_centre(i, kind);
+            Ray::new(point![c, 0.0, -c], nalgebra::vector![0.0, 0.0, 1.0])
+        })
+        .collect();
+    let c = progression_centre(n - 1, kind);
+    v.push(Ray::new(point![0.5 * c, 0.0, -c], nalgebra::vector![0.0, 0.0, 1.0]));
+    v.push(Ray::new(point![c, 0.0, -c], nalgebra::vector![0.0, 0.0, -1.0]));
+    v
 }
 
 fn occluder_model(k: usize, variant: usize) -> Model {
@@ -217,6 +253,7 @@ fn bvh_case_run(c: &BvhCase) -> Value {
         return json!({"verdict": "ok", "checked": checked, "hits": hits, "n": occ.len()});
     }
     let els = elements_for(c);
+    let rs = if let BvhCase::Progression(n, kind) = c { progression_rays(*n, *kind) } else { rs };
     let leaves: &[usize] = match c {
         BvhCase::Seq(_) => &[1, 2, 3, 30],
         _ => &[1, 2, 4, 30],
@@ -270,6 +307,7 @@ fn class_of(c: &BvhCase) -> String {
         BvhCase::SameAxisCentre(_) => "n>0,coincident-on-split-axis".into(),
         BvhCase::Lattice(n) => if *n == 0 { "n=0".into() } else { "n>0".into() },
         BvhCase::InexactCentre(..) => "n>0,coincident-on-split-axis:centre-not-a-binary-fraction".into(),
+        BvhCase::Progression(..) => "n>0,centres-in-geometric-progression".into(),
         BvhCase::Occluders(k, v) => format!("n{}{}", if *k == 0 { "=0" } else { ">0" }, if *v == 1 && *k > 1 { ",coincident-centres" } else { "" }),
     }
 }
@@ -823,7 +861,7 @@ pub fn run(ctx: &Ctx) -> i32 {
     run_reveals(ctx);
     ctx.finish(
         "model_checking",
-        "(a) BVH: all sequences of length 0..L over an 8-box alphabet on the {0..3}^3 grid (flat, point, two boxes with identical centres; L=4 quick / 5 thorough) x leaf size {1,2,3,30} x 88 rays (incl. directions with -0.0 components), n copies of one element, collinear centres, centres coinciding on the split axis (also at values that are not binary fractions: 4.05, 0.1, 0.7, 1e-3, 123456.7, -2.3), prefixes of a 216-box lattice, shade sets through BVH<&Occluder>; each build runs in a supervised worker process (watchdog, 4 GiB) and BVH.intersects(r).is_some() is compared with testing every obstacle; AABB::intersects itself against an f64 slab test for 48 boxes x 88 rays, and BVH over plain polygons (no box pre-check on the element side) against the one-by-one polygon test; 2..40 complementary triangles of one rectangle (identical boxes, different polygons, all centres coinciding) x leaf size {1,2,30} x an 80-ray grid over the rectangle; (b) all simple polygons (general position) with 3..4 vertices on the 4x4 grid (+5-gons 4x4 and 6-gons 3x3 in thorough, 5-gons 3x3 in quick; + three outlines with a corner in the middle of a side, listed from every corner in both senses) x poses (tilt{0,30,90,135,180} x az{0,45,90,-120,180} x 2 positions) x 64 quarter-lattice targets x 3 directions x {front-towards, front-away, behind-towards, parallel} against exact integer point-in-polygon (targets on the outline skipped) + AABB containment; (c) reveal quads for setback{.05,.2,1} x 3 window rects x 6 tilts x 5 azimuths x 2 positions against the wall's own transform, the first window also with the wall outline shifted in its plane and listed from its third corner; a set-back window listed after a window that cannot have reveals; non-trivial = non-empty obstacle set / polygon with at least one expected hit / 4 reveal quads generated",
+        "(a) BVH: all sequences of length 0..L over an 8-box alphabet on the {0..3}^3 grid (flat, point, two boxes with identical centres; L=4 quick / 5 thorough) x leaf size {1,2,3,30} x 88 rays (incl. directions with -0.0 components), n copies of one element, collinear centres, centres coinciding on the split axis (also at values that are not binary fractions: 4.05, 0.1, 0.7, 1e-3, 123456.7, -2.3), prefixes of a 216-box lattice, 20 / 40 / 74 boxes whose centres grow geometrically (ratio 10 from 1e-36, ratio 50 from 1e-30: a tree as deep as the set is large) with one ray through each box, shade sets through BVH<&Occluder>; each build runs in a supervised worker process (watchdog, 4 GiB) and BVH.intersects(r).is_some() is compared with testing every obstacle; AABB::intersects itself against an f64 slab test for 48 boxes x 88 rays, and BVH over plain polygons (no box pre-check on the element side) against the one-by-one polygon test; 2..40 complementary triangles of one rectangle (identical boxes, different polygons, all centres coinciding) x leaf size {1,2,30} x an 80-ray grid over the rectangle; (b) all simple polygons (general position) with 3..4 vertices on the 4x4 grid (+5-gons 4x4 and 6-gons 3x3 in thorough, 5-gons 3x3 in quick; + three outlines with a corner in the middle of a side, listed from every corner in both senses) x poses (tilt{0,30,90,135,180} x az{0,45,90,-120,180} x 2 positions) x 64 quarter-lattice targets x 3 directions x {front-towards, front-away, behind-towards, parallel} against exact integer point-in-polygon (targets on the outline skipped) + AABB containment; (c) reveal quads for setback{.05,.2,1} x 3 window rects x 6 tilts x 5 azimuths x 2 positions against the wall's own transform, the first window also with the wall outline shifted in its plane and listed from its third corner; a set-back window listed after a window that cannot have reveals; non-trivial = non-empty obstacle set / polygon with at least one expected hit / 4 reveal quads generated",
         true,
         json!({}),
     )
